@@ -47,6 +47,7 @@ type History struct {
 	Extra      int  `json:"extra"`                // additional OS threads in various states (C10)
 	NoSeccomp  bool `json:"no_seccomp,omitempty"` // fault: seccomp(2) answers ENOSYS (an outer filter denies it)
 	NoNNP      bool `json:"no_nnp,omitempty"`     // fault: prctl(PR_SET_NO_NEW_PRIVS) answers EINVAL (an outer filter denies it); privileged children only
+	Procs      int  `json:"procs,omitempty"`      // GOMAXPROCS of the child (default 4); 1 = a single P while other OS threads exist
 	Ops        []Op `json:"ops"`
 }
 
@@ -158,6 +159,9 @@ type worker struct {
 
 func child(h History) {
 	runtime.GOMAXPROCS(4)
+	if h.Procs > 0 {
+		runtime.GOMAXPROCS(h.Procs)
+	}
 	if !h.Privileged {
 		if err := syscall.Setresgid(65534, 65534, 65534); err != nil {
 			fmt.Println(`{"fatal":"setresgid"}`)
@@ -509,8 +513,19 @@ func genHistory(r *rand.Rand, profile string) History {
 	case "tsync":
 		h.Extra = []int{0, 1, 3, 8, 16, 40, 63}[r.Intn(7)]
 		nops = 1 + r.Intn(2)
+		if r.Intn(4) == 0 {
+			// a single P: no other thread runs Go code during the load, but the threads exist all the same
+			h.Procs = 1
+			if h.Extra > 8 {
+				h.Extra = 8
+			}
+		}
 	case "nnp":
 		h.Privileged = r.Intn(4) == 0
+	case "load":
+		if r.Intn(5) == 0 {
+			h.Procs = 1
+		}
 	}
 	if (profile == "load" || profile == "tsync") && r.Intn(8) == 0 {
 		h.NoSeccomp = true
@@ -823,6 +838,9 @@ func main() {
 			}
 		}
 		sum.Distribution[fmt.Sprintf("threads:%d+%d", h.Threads, h.Extra)]++
+		if h.Procs > 0 {
+			sum.Distribution[fmt.Sprintf("gomaxprocs:%d", h.Procs)]++
+		}
 		if h.NoSeccomp {
 			sum.Distribution["fault:seccomp-ENOSYS"]++
 		}
